@@ -41,7 +41,9 @@ W(i, refs, ann, tags, meta) ==
 R(i, kind, extra, members, meta) ==
   [id |-> i, tags |-> (IF kind = "" THEN << >> ELSE << <<"type", kind>> >>) \o extra, members |-> members, meta |-> meta]
 M(t, ref, role) == [t |-> t, ref |-> ref, role |-> role]
-DS(fam, ns, ws, rs) == [fam |-> fam, nodes |-> ns, ways |-> ws, rels |-> rs]
+\* (the id classes of families F1..F7 are dealt out by GeoJsonGen among classes that fit; F8 and the sample carry their own)
+DS(fam, ns, ws, rs) == [fam |-> fam, nodes |-> ns, ways |-> ws, rels |-> rs, ids |-> SmallIds]
+Ids(n, w, r) == [node |-> n, way |-> w, relation |-> r]
 Plain(i) == N(i, TRUE, TNone, M0)
 
 \* the part of the space the buildPolygon transcription covers (see PolyResult)
@@ -172,7 +174,39 @@ F7 ==
      tags \in {TNone, << <<"highway", "residential">> >>},
      contRev \in BOOLEAN}
 
-Families == F1 \cup F2 \cup F3 \cup F4a \cup F4b \cup F5 \cup F6 \cup F7
+\* F8 - id classes: data sets in which every kind of reference occurs (way-node refs incl. a missing node, member
+\* refs to nodes / ways / relations incl. missing ones, route, old-style and tagged multipolygon, boundary with two
+\* outers, a node that shares its number with a member of another type) x id classes per element type:
+\* negative ids (-1, -2, ...), ids around 2^31 and 2^32, 2^40-1 downwards, 2^40 upwards, 2^40+7 upwards.
+IdBases ==
+  { DS("F8", << Plain(1), N(2, TRUE, << <<"amenity", "cafe">> >>, MVer), Plain(3) >>,
+       << W(1, <<1, 2>>, FALSE, << <<"highway", "residential">> >>, MFull), W(2, <<2, 3>>, FALSE, TNone, M0) >>,
+       << R(1, "route", << <<"name", "r">> >>, << M("way", 1, ""), M("way", 2, ""), M("node", 3, "stop") >>, MVer),
+          R(2, "site", TNone, << M("relation", 1, "sub"), M("way", 1, ""), M("node", 1, "") >>, M0) >>),
+    DS("F8", << Plain(1), Plain(2), Plain(3) >>,
+       << W(1, <<1, 2, 3, 1>>, FALSE, << <<"building", "yes">> >>, MVer), W(2, <<1, 3, 2, 1>>, FALSE, TNone, M0) >>,
+       << R(1, "multipolygon", TNone, << M("way", 1, "outer") >>, M0),
+          R(2, "multipolygon", << <<"name", "r">> >>, << M("way", 2, "outer"), M("way", 1, "inner") >>, MFull) >>),
+    DS("F8", << Plain(1), Plain(2) >>,
+       << W(1, <<1, 2>>, FALSE, TNone, M0) >>,
+       << R(1, "site", << <<"name", "s">> >>, << M("way", 1, "x"), M("relation", 2, "y") >>, M0),
+          R(2, "route", TNone, << M("way", 1, "") >>, M0) >>),
+    DS("F8", << Plain(1), Plain(2), N(3, TRUE, TNone, MFull) >>,
+       << W(1, <<1, 9, 2>>, FALSE, << <<"highway", "path">> >>, M0), W(2, <<9, 1, 2, 3, 9>>, TRUE, << <<"landuse", "grass">> >>, MPart) >>,
+       << R(1, "route", TNone, << M("way", 1, ""), M("way", 7, ""), M("node", 9, "") >>, MTime) >>),
+    DS("F8", << Plain(1), Plain(2), Plain(3) >>,
+       << W(1, <<1, 2, 3, 1>>, FALSE, TNone, M0), W(2, <<1, 3, 2, 1>>, TRUE, TNone, M0) >>,
+       << R(1, "boundary", << <<"name", "b">> >>, << M("way", 1, "outer"), M("way", 7, "outer") >>, MVer),
+          R(2, "multipolygon", TNone, << M("way", 2, "inner"), M("node", 1, "label") >>, M0) >>) }
+IdTriples ==
+  IF Thorough THEN {Ids(n, w, r) : n \in IdClasses, w \in IdClasses, r \in IdClasses}
+  ELSE {Ids(c, "small", "small") : c \in IdClasses} \cup {Ids("small", c, "small") : c \in IdClasses}
+       \cup {Ids("small", "small", c) : c \in IdClasses} \cup {Ids(c, c, c) : c \in IdClasses}
+       \cup {Ids("neg", "neg", "small"), Ids("neg", "small", "neg"), Ids("small", "neg", "neg"), Ids("at40", "over40", "neg"),
+              Ids("over40", "neg", "top40"), Ids("i31", "at40", "i32"), Ids("top40", "i32", "over40")}
+F8 == {[b EXCEPT !.ids = t] : b \in IdBases, t \in IdTriples}
+
+Families == F1 \cup F2 \cup F3 \cup F4a \cup F4b \cup F5 \cup F6 \cup F7 \cup F8
 
 \* the full product space, sampled
 MemberAll == [t : {"node"}, ref : {1, 2, 3, 9}, role : {"", "stop"}] \cup
@@ -204,7 +238,10 @@ Sample ==
            r1 == SetToSeq(RandomSubset(SampleN, RelSpace))
            r2 == SetToSeq(RandomSubset(SampleN, RelSpace))
            at(seq, i, a) == seq[((i * a) % Len(seq)) + 1]
-       IN {d \in {DS("S", MkNodes(ns[i]), MkWays(at(ws, i, 7919)), MkRel(1, at(r1, i, 1543)) \o MkRel(2, at(r2, i, 3571))) :
+           all3 == SetToSeq({Ids(n, w, r) : n \in IdClasses, w \in IdClasses, r \in IdClasses})
+           \* every third sample case gets one of the 343 id class triples, the others small ids
+       IN {d \in {[DS("S", MkNodes(ns[i]), MkWays(at(ws, i, 7919)), MkRel(1, at(r1, i, 1543)) \o MkRel(2, at(r2, i, 3571)))
+                      EXCEPT !.ids = IF i % 3 = 0 THEN at(all3, i, 101) ELSE SmallIds] :
                      i \in 1 .. SampleN} : InSpace(d)}
 
 DataSets == Families \cup Sample
